@@ -159,7 +159,14 @@ def integrate(prog, ctx, roles):
 def pos_neg(t, P):
     pp = Symbol('Ppos', positive=True)
     pn = Symbol('Pneg', negative=True)
-    return sp.piecewise_fold(t.subs(P, pp)).subs(pp, P), sp.piecewise_fold(t.subs(P, pn)).subs(pn, P)
+    # substituting a signed symbol decides the alternatives that test the sign of the prefactor; alternatives inside the
+    # arguments (an index chosen by the position of a limit) are left alone
+    def side(sym):
+        u = t.subs(P, sym)
+        if isinstance(u, sp.Piecewise) and any(c_.has(sym) for _e, c_ in u.args):
+            u = sp.piecewise_fold(u)
+        return u.subs(sym, P)
+    return side(pp), side(pn)
 
 
 def knot_term_ok(K, P, Yname, lo_req, hi_req, want_min, ctx, fn, inst, rule_c, rule_d):
@@ -180,10 +187,17 @@ def knot_term_ok(K, P, Yname, lo_req, hi_req, want_min, ctx, fn, inst, rule_c, r
         ctx.undecided(rule_c, inst, fn, 'knot extremum not recognised: %s' % K)
         return
     arr, lo, hi = E0.args
-    dl = sp.simplify(lo_req - lo)
-    dh = sp.simplify(hi - hi_req)
-    okc = str(arr) == 'arr:' + Yname and dl.is_number and dl >= 0 and dh.is_number and dh >= 0
-    ctx.decide(rule_c, inst, fn, bool(okc), 'knots [%s, %s) of %s are candidates (required: [%s, %s))' % (lo, hi, arr, lo_req, hi_req),
+    if lo_req is None:
+        # the range is judged by the placement table of the caller; here: the extremum is taken over the table of ordinates
+        ctx.decide(rule_c, inst, fn, str(arr) == 'arr:' + Yname, 'the knot extremum ranges over the ordinates %s' % arr, 'the knot extremum ranges over %s' % arr, form=str(K))
+        dl = dh = sp.Integer(0)
+        okc = True
+    else:
+        dl = sp.simplify(lo_req - lo)
+        dh = sp.simplify(hi - hi_req)
+        okc = str(arr) == 'arr:' + Yname and dl.is_number and dl >= 0 and dh.is_number and dh >= 0
+    if lo_req is not None:
+        ctx.decide(rule_c, inst, fn, bool(okc), 'knots [%s, %s) of %s are candidates (required: [%s, %s))' % (lo, hi, arr, lo_req, hi_req),
                'candidate knots [%s, %s) do not cover the required range [%s, %s): knot %s is skipped'
                % (lo, hi, lo_req, hi_req, hi_req - 1 if not (dh.is_number and dh >= 0) else lo_req),
                witness={'reproducer': 'table x=0..4, f=(5,4,-7,4,5): Local_Minimum(0.5,2.5) returns -1.75, the curve reaches -7'} if not okc else None,
@@ -217,46 +231,114 @@ def extrema(prog, ctx, roles):
         f1 = Function(INT, real=True)(Symbol('obj:this'), x1)
         f2 = Function(INT, real=True)(Symbol('obj:this'), x2)
         MM = sp.Min if want_min else sp.Max
-        # every return path: for each distance d = i2 - i1 on which the path is taken, the candidates must contain
-        # both ends and every knot in (i1, i1+d]
-        covered = set()
-        npath = 0
+        # Decided on a concrete table X[k] = k, k < 6, domain [0,5], with the limits placed below, at, between and above the knots
+        # and in both 1% extrapolation zones; Locate(x) is the segment index the search rules of C09 establish: floor(x) inside
+        # the domain (N-2 at the last knot), 0 in the left zone, N-2 in the right zone.  For every placement exactly one
+        # returning path applies, and every knot k with x1 <= X[k] <= x2 must be a candidate: inside the knot range handed to
+        # min/max_element, or equal to a limit (whose value f(x1), f(x2) is a candidate).
+        import math
+        NT = 6
+        AU = sp.core.function.AppliedUndef
+        Nsyms = lambda t: [y_ for y_ in t.free_symbols if y_.name == 'this.N']
+
+        def locm(xv):
+            if xv < 0:
+                return 0
+            if xv >= NT - 1:
+                return NT - 2
+            return int(math.floor(xv))
+
+        def conc(t, x1v, x2v):
+            if not isinstance(t, sp.Basic):
+                return t
+            for _ in range(6):
+                t = t.xreplace({x1: sp.nsimplify(x1v), x2: sp.nsimplify(x2v)})
+                t = t.xreplace({y_: sp.Integer(NT) for y_ in Nsyms(t)})
+                rep = {}
+                for a_ in t.atoms(AU):
+                    n_ = a_.func.__name__
+                    if n_ == LOC and len(a_.args) == 2 and a_.args[1].is_number:
+                        rep[a_] = sp.Integer(locm(float(a_.args[1])))
+                    elif n_ == 'this.domain' and len(a_.args) == 1 and a_.args[0].is_number:
+                        rep[a_] = sp.Integer(0) if a_.args[0] == 0 else sp.Integer(NT - 1)
+                    elif n_ == 'this.x_values' and len(a_.args) == 1 and a_.args[0].is_number:
+                        rep[a_] = a_.args[0]
+                if not rep:
+                    break
+                t = t.xreplace(rep)
+            try:
+                return sp.simplify(t)
+            except Exception:
+                return t
+        places = [-0.005, 0.0, 0.5, 1.0, 2.5, 4.5, 5.0, 5.005]
+        missing, undecided_rows, nrows = [], [], 0
+        knot_terms = []
         for o in outs:
-            ds = [d for d in (0, 1, 2, 3, 6) if o.cond.subs(i2, i1 + d) == S.true]
-            und = [d for d in (0, 1, 2, 3, 6) if o.cond.subs(i2, i1 + d) not in (S.true, S.false)]
-            if und:
-                ctx.undecided('C08.c', name + ':branches', fn, 'path condition %s is not decided by i2-i1' % o.cond)
+            v = o.value
+            args = list(v.args) if isinstance(v, MM) else [v]
+            if not (f1 in args and f2 in args):
+                ctx.violated('C08.c', name + ':ends', fn, 'candidates %s do not contain both end values f(x1), f(x2)' % [str(a_)[:40] for a_ in args])
+        for x1v in places:
+            for x2v in places:
+                if x2v < x1v:
+                    continue
+                sel = []
+                for o in outs:
+                    c = conc(o.cond, x1v, x2v)
+                    if c == S.true or c is True:
+                        sel.append(o)
+                    elif c not in (S.false, False):
+                        undecided_rows.append((x1v, x2v, str(c)[:80]))
+                if len(sel) != 1:
+                    undecided_rows.append((x1v, x2v, '%d paths apply' % len(sel)))
+                    continue
+                nrows += 1
+                v = sel[0].value
+                els = [a_ for a_ in v.atoms(AU) if a_.func.__name__ in ('MINEL', 'MAXEL')] if isinstance(v, sp.Basic) else []
+                examined = set()
+                bad_range = False
+                for E in els:
+                    lo_, hi_ = conc(E.args[1], x1v, x2v), conc(E.args[2], x1v, x2v)
+                    if not (lo_.is_number and hi_.is_number):
+                        bad_range = True
+                        break
+                    examined |= set(range(int(lo_), int(hi_)))
+                if bad_range:
+                    undecided_rows.append((x1v, x2v, 'knot range %s..%s' % (lo_, hi_)))
+                    continue
+                if any(k_ < 0 or k_ >= NT for k_ in examined):
+                    missing.append({'x1': x1v, 'x2': x2v, 'out_of_range_knots': sorted(k_ for k_ in examined if k_ < 0 or k_ >= NT)})
+                    continue
+                expected = set(k_ for k_ in range(NT) if x1v <= k_ <= x2v)
+                miss = sorted(k_ for k_ in expected if k_ not in examined and k_ != x1v and k_ != x2v)
+                if miss:
+                    missing.append({'x1': x1v, 'x2': x2v, 'knots_never_compared': miss, 'compared': sorted(examined)})
+                if els:
+                    knot_terms.append(sel[0])
+        if undecided_rows and not missing:
+            ctx.undecided('C08.c', name + ':coverage', fn, 'candidate set not evaluated on the concrete table: %s' % undecided_rows[:2])
+        else:
+            ctx.decide('C08.c', name + ':coverage', fn, not missing,
+                       'on all %d placements of the limits every knot inside [x1,x2] is a candidate (table X[k]=k, k<%d, limits incl. both extrapolation zones)' % (nrows, NT),
+                       'a knot inside [x1,x2] is never compared: %s' % missing[:2],
+                       witness={'cases': missing[:4], 'reproducer': 'Interpolation({0,1,2},{0,4,5}).Local_Maximum(1.5, 2.005) returns 4.999975 although the curve reaches 5 at x=2'} if missing else None)
+        # prefactor handling of the knot term (C08.d): on one path that carries it
+        done_d = set()
+        for o in knot_terms:
+            if id(o) in done_d:
                 continue
-            if not ds:
-                continue
-            npath += 1
-            covered |= set(ds)
+            done_d.add(id(o))
             v = o.value
             args = list(v.args) if isinstance(v, MM) else [v]
             rest = [a_ for a_ in args if not (a_ == f1 or a_ == f2)]
-            tag = 'one-segment' if ds == [0] else 'knots'
-            inst = name + ':' + tag + ('' if npath <= 2 else '#%d' % npath)
-            if not (f1 in args and f2 in args):
-                ctx.violated('C08.c', inst, fn, 'candidates %s do not contain both end values f(x1), f(x2)' % args)
-                continue
-            if not rest:
-                ok0 = ds == [0]
-                ctx.decide('C08.c', inst, fn, ok0, 'within one segment the extremum is at an end (pieces are monotone)',
-                           'for i2-i1 in %s only the two end values are compared: the %d knot(s) between x1 and x2 are never inspected'
-                           % ([d for d in ds if d > 0], max(ds)),
-                           witness={'i2-i1': max(ds), 'path': str(o.cond)} if not ok0 else None)
-                continue
             if len(rest) != 1:
-                ctx.violated('C08.c', inst, fn, 'candidates are %s, expected {f(x1), f(x2), knot extremum}' % args)
+                ctx.violated('C08.c', name + ':knots', fn, 'candidates are %s, expected {f(x1), f(x2), knot extremum}' % [str(a_)[:40] for a_ in args])
                 continue
             K = rest[0]
-            els = [a_ for a_ in K.atoms(sp.core.function.AppliedUndef) if a_.func.__name__ in ('MINEL', 'MAXEL')]
+            els = [a_ for a_ in K.atoms(AU) if a_.func.__name__ in ('MINEL', 'MAXEL')]
             Yn = str(els[0].args[0])[4:] if els else '?'
-            knot_term_ok(K, P, Yn, i1 + 1, i2 + 1, want_min, ctx, fn, inst, 'C08.c', 'C08.d')
+            knot_term_ok(K, P, Yn, None, None, want_min, ctx, fn, name + ':knots', 'C08.c', 'C08.d')
             Ycands = Yn
-        miss = [d for d in (0, 1, 2, 3, 6) if d not in covered]
-        if miss:
-            ctx.violated('C08.c', name + ':coverage', fn, 'no return path for i2-i1 in %s' % miss)
     for name, want_min in (('Global_Minimum', True), ('Global_Maximum', False)):
         fn = prog.fn(Q + name, 0)
         sx = Symx(prog, fn)
